@@ -164,8 +164,12 @@ func (b *BoundedBacktracker) reset(state *BacktrackerState, haystackLen int) {
 	state.Generation++
 	// Handle overflow by clearing array (every 65536 searches - rare)
 	if state.Generation == 0 {
-		for i := range state.Visited {
-			state.Visited[i] = 0
+		// Clear the whole backing array, not only the part this search uses: marks
+		// left beyond it by earlier, longer searches would otherwise be taken for
+		// marks of a later search once the counter reaches their value again.
+		full := state.Visited[:cap(state.Visited)]
+		for i := range full {
+			full[i] = 0
 		}
 		state.Generation = 1
 	}
